@@ -1361,3 +1361,126 @@ CONCRETE["bounded:image_stream_interleavings"] = {
              "10 / 200 random schedules of reads (1..20000 bytes), re-seeks and listings over all six streams; every stream compared with its sample's PCM window",
     "timeout_s": 60.0, "budget_quick": 120, "budget_thorough": 900,
 }
+
+
+# ================================================================================== C15 for Roland and CDDA images
+# The same statement on the other two image kinds: the image file (for CDDA: the bin file; the cue sheet is intact) is cut at cluster /
+# sector boundaries and at interior offsets - inside the ID area, the FAT, the directory and parameter areas, the sample data.
+def _c15x_model():
+    # samples stored in out-of-order and interleaved clusters, one in a reverse mode, one with a leading cluster to skip
+    return {"fat_version": 1, "disk_name": "D",
+            "volumes": [{"name": "V", "performances": [0]}],
+            "performances": [{"name": "P", "patches": [0]}, {"name": "ORPH", "patches": [1]}],
+            "patches": [{"name": "PA", "partials": [0]}, {"name": "PB", "partials": [1]}],
+            "partials": [{"name": "PT0", "samples": [0, 1, 2, -1]}, {"name": "PT1", "samples": [3]}],
+            "samples": [_rsample("S0", 2 * WPC + 100, 51, clusters=[6, 4, 5]), _rsample("S1", WPC - 7, 52, clusters=[3]),
+                        _rsample("S2", WPC + 50, 53, mode=5, clusters=[8, 7]), _rsample("S3", WPC, 54, clusters=[10, 9], top=1)]}
+
+
+def _build_c15x(inputs):
+    L = _lib()
+
+    def run():
+        with L.Workdir() as w:
+            if inputs["kind"] == "roland":
+                raw, lay = L.rw.build_roland_image_ex(expand_roland(_c15x_model()))
+                full = w.file("full.s7xx", raw)
+                d = w.sub("cutdir")
+                cut_path = os.path.join(d, "cut.s7xx")
+                with open(cut_path, "wb") as f:
+                    f.write(raw[:inputs["cut"]])
+                layout = {"samples": [{"need": max(o + lay["cluster_size"] for o in s["cluster_offsets"])} for s in lay["samples"]], "data_start": lay["data_area_offset"]}
+            else:
+                n = inputs.get("tracks", 3)
+                tracks = [{"number": i + 1, "mode": "AUDIO", "title": f"T{i}", "indices": [(1, 0, 0, 3 * i)]} for i in range(n)]
+                binb = L.pcm_words(61, 2352 * 3 * n // 2 + 8)[:2352 * 3 * n + 10]
+                full = L.cw.write_bin_cue(w.sub("full"), binb, L.cw.build_cue(tracks))
+                cut_path = L.cw.write_bin_cue(w.sub("cutdir"), binb[:inputs["cut"]], L.cw.build_cue(tracks))
+                layout = {"tracks": [{"path": f"T{i}.wav", "end": 2352 * 3 * (i + 1) if i < n - 1 else len(binb)} for i in range(n)]}
+            out_full, out = w.sub("out_full"), w.sub("out_cut")
+            L.do_export(full, out_full)
+            stdout, err = L.do_export(cut_path, out)
+            return {"full": L.read_tree(out_full), "cut": L.read_tree(out), "reported": L.exported_lines(stdout),
+                    "error": type(err).__name__ if err else None, "layout": layout}
+    return {"call": run, "env": {}}
+
+
+def _oracle_c15x(inputs, kind, val, env):
+    L = _lib()
+    if kind != "return":
+        return []
+    bad = []
+    cut = inputs["cut"]
+    for path, data in val["cut"].items():
+        if path not in val["reported"] and (path[:-4] if path.endswith(".wav") else path) not in [r[:-4] if r.endswith(".wav") else r for r in val["reported"]]:
+            continue          # a file the tool did not report (aborted while writing it) is outside the statement
+        info, probs = L.wav_info(data)
+        if info is None or probs:
+            bad.append(f"reported-file-is-well-formed({path}: {probs[:2]})")
+            continue
+        ref = val["full"].get(path)
+        if ref is None:
+            bad.append(f"same-path-as-the-complete-image({path})")
+            continue
+        rinfo, _ = L.wav_info(ref)
+        if inputs["kind"] == "roland" and path.endswith("/S2.wav"):
+            # a time-REVERSED sample reads its window from the end: what is missing behind the cut is its BEGINNING; the statement's "prefix"
+            # is judged for it as: nothing but bytes of the complete export (it is a contiguous piece of it), never garbage
+            if info["data"] not in rinfo["data"]:
+                bad.append(f"pcm-is-a-piece-of-the-complete-export({path}: {len(info['data'])} bytes)")
+        elif not rinfo["data"].startswith(info["data"]):
+            bad.append(f"pcm-is-a-prefix-of-the-complete-export({path}: {len(info['data'])} of {len(rinfo['data'])} bytes)")
+    lay = val["layout"]
+    if inputs["kind"] == "roland":
+        groups = {0: ["V/P/S0.wav", "_Orphan_perf/ORPH/S3.wav"][:1], 1: ["V/P/S1.wav"], 2: ["V/P/S2.wav"], 3: ["_Orphan_perf/ORPH/S3.wav"]}
+        for si, paths in groups.items():
+            if lay["samples"][si]["need"] <= cut:
+                for path in paths:
+                    if val["cut"].get(path) != val["full"].get(path):
+                        bad.append(f"complete-when-everything-lies-before-the-cut({path}: needs {lay['samples'][si]['need']} <= cut {cut}; "
+                                   f"{'missing' if path not in val['cut'] else 'differs'}; export error={val['error']})")
+    else:
+        for t in lay["tracks"]:
+            if t["end"] <= cut and val["cut"].get(t["path"]) != val["full"].get(t["path"]):
+                bad.append(f"complete-when-everything-lies-before-the-cut({t['path']}: ends at {t['end']} <= cut {cut}; "
+                           f"{'missing' if t['path'] not in val['cut'] else 'differs'}; export error={val['error']})")
+    return bad
+
+
+def _small_c15x(tier, seed, shard=(0, 1)):
+    import random
+    rnd = random.Random(16000 + seed)
+    cases = []
+    DATA = 0x2b1000          # address of virtual cluster 0 of the Roland data area; clusters are 9216 bytes
+    for c in range(2, 13):
+        for d in ((0, 1, 5000) if tier == "quick" else (0, 1, 2, 4607, 4608, 5000, 9215)):
+            cases.append({"kind": "roland", "cut": DATA + c * 9216 + d})
+    for area in (0, 100, 0x800, 0x80800, 0x80900, 0xa0800, 0xa0820, 0xa1800, 0xa5800, 0xad800, 0xcd800, 0xcd820, 0x10d800, 0x115800, 0x155800, 0x1d5800, 0x255800, 0x255830, 0x2b0000):
+        cases.append({"kind": "roland", "cut": area + (rnd.randrange(0, 40) if area else 0)})
+    for _ in range(6 if tier == "quick" else 80):
+        cases.append({"kind": "roland", "cut": rnd.randrange(DATA, DATA + 13 * 9216)})
+    for n in (1, 3):
+        total = 2352 * 3 * n + 10
+        cuts = sorted({0, 1, 3, 4, 2351, 2352, 2353, 2352 * 3 - 1, 2352 * 3, 2352 * 3 + 2, total - 11, total - 10, total - 1} | {rnd.randrange(total) for _ in range(4 if tier == "quick" else 40)})
+        for c in cuts:
+            if 0 <= c <= total:
+                cases.append({"kind": "cdda", "tracks": n, "cut": c})
+    for k, c in enumerate(cases):
+        if k % shard[1] == shard[0]:
+            yield c
+
+
+@contract("e2e:C15-roland-cdda", props=["C15"], abstract=True)
+def _c15x(c):
+    pass
+
+
+CONCRETE["e2e:C15-roland-cdda"] = {
+    "build": _build_c15x, "small": _small_c15x, "oracle": _oracle_c15x, "shards": 6,
+    "nontrivial": lambda i, s: s["kind"] == "return",
+    "bound": "a Roland image (4 samples in out-of-order / interleaved clusters, one reverse mode, one with a leading cluster, one orphaned performance) cut at every "
+             "cluster boundary of the data area (+0, +1, +5000; thorough: 7 offsets), inside each of 19 header / table areas and at 6/80 random data offsets; bin/cue "
+             "images of 1 and 3 tracks with the bin cut at 13 boundary positions and 4/40 random ones; every reported file: well-formed, same path, PCM a prefix "
+             "(reverse-mode sample: a contiguous piece) of the complete export; complete when all its clusters / its whole track lie before the cut",
+    "timeout_s": 60.0, "budget_quick": 200, "budget_thorough": 1200,
+}
